@@ -128,6 +128,26 @@ def rule_gcd(rep):
     # one unit per active channel per call
     units = [u for l in m["loops"] for u in l["units"]]
     rep.ob(R, "FftFixedInOut/one-unit-per-call", len(units) == 1 and units[0].get("direct"), "each call resamples exactly one block per active channel", loc(m["fn"]))
+    # .. and hands the unit exactly one input block of the caller's channel and one output block of the caller's channel
+    ok = False
+    detail = "no direct unit call"
+    if len(units) == 1 and units[0].get("direct") and len(units[0]["args"]) == 3 and fr is not None:
+        def sl(a):
+            while a.get("k") == "ref":
+                a = a["e"]
+            if a.get("k") == "index" and a["i"].get("k") == "range" and a["i"].get("lo") is None and a["i"].get("hi") is not None:
+                return a["e"], a["i"]["hi"]
+            return None, None
+        (bi, hi_in), (bo, hi_out) = sl(units[0]["args"][0]), sl(units[0]["args"][1])
+        def blk(h, want):
+            return h is not None and is_self_field(h) and inits.get(h["name"]) is not None and nbit(inits.get(h["name"])) == nbit(want)
+        g_ = [l for l in m["loops"] if l["units"]][0]["guard"]
+        ch_ = g_.get("chan")
+        ok = blk(hi_in, fr[0]) and blk(hi_out, fr[1]) and bi is not None and bo is not None \
+            and nbit(bi) in ("%s[%s].as_ref()" % (m["wave_in"], ch_), "%s[%s]" % (m["wave_in"], ch_)) \
+            and nbit(bo) in ("%s[%s].as_mut()" % (m["wave_out"], ch_), "%s[%s]" % (m["wave_out"], ch_))
+        detail = "unit reads %s[..%s], writes %s[..%s]" % (show(bi)[:40] if bi else None, show(hi_in) if hi_in else None, show(bo)[:40] if bo else None, show(hi_out) if hi_out else None)
+    rep.ob(R, "FftFixedInOut/unit-slices", ok, detail + " (must be wave_in[chan][..fft_size_in] -> wave_out[chan][..fft_size_out], the sizes the unit was built with)", loc(m["fn"]))
 
 
 def rule_exact(rep):
